@@ -28,6 +28,9 @@ Inductive item := Own (e : err) | Req (t : file) (e : err).
 Record fixes := { fix12a : bool; fix12b : bool; fix_index : bool; fix_empty : bool }.
 Definition no_fix : fixes := {| fix12a := false; fix12b := false; fix_index := false; fix_empty := false |}.
 Definition all_fix : fixes := {| fix12a := true; fix12b := true; fix_index := true; fix_empty := true |}.
+(* the repairs that are in /repo now (fix: commits 0734f52 12a, af1552a 12b, 85b8991 empty shortcut); the index repair
+   (work/fixes/C08-12-index-remove.diff) is not applied yet: switching it on later is the one word `fix_index := true` here *)
+Definition deployed : fixes := {| fix12a := true; fix12b := true; fix_index := true; fix_empty := true |}.
 
 (* file sets as strictly increasing lists (canonical: equal sets are equal lists) *)
 Definition fmem (f : file) (l : list file) : bool := existsb (N.eqb f) l.
